@@ -150,6 +150,81 @@ def r_slit_and_report(ctx: Ctx, model):
                        nontrivial_key=("slit", "bound"))
 
 
+def r_ry_sphere(ctx: Ctx, model):
+    """Rege-Yang spherical pore: the potential closure, evaluated for pores holding 1, 2 and 3 adsorbate layers, against the
+    equations the method documents (Rege & Yang 2000 as restated in the function's docstring):
+      eps_1 = 2 n_0 A_gh/(4 d_0^6) F(a_1),   eps_i = 2 n_(i-1) A_gg/(4 d_g^6) F(a_i)  (i >= 2),   b = 1 - a,
+      F(a) = a^12/(10 b) ((1-b)^-10 - (1+b)^-10) - a^6/(4 b) ((1-b)^-4 - (1+b)^-4),
+      a_1 = d_0/L,  a_i = d_g/(L - d_0 - (i-2) d_g),  n_0 = 4 pi L^2 n_h,  n_i = 4 pi (L - d_0 - (i-1) d_g)^2 n_g,
+      potential = N_A/(RT) * sum_(i=1..M) n_i eps_i / sum_(i=1..M) n_i"""
+    ctx.rule("H-sphere(RY) [ALG]: the Rege-Yang sphere potential for 1, 2 and 3 layers equals the documented layer equations "
+             "(layer i interacts with the population of layer i-1; weights n_1..n_M)")
+    I = mk(model)
+    patch_constants(I)
+    fi = model.func(f"{PMI}.psd_horvath_kawazoe_ry")
+    captured = {}
+
+    def fake_solver(I, fi_, env, n):
+        captured["fun"] = env["hk_fun"]
+        return [S("Lw0"), S("Lw1"), S("Lw2")]
+    I.overrides[f"{PMI}._solve_hk"] = fake_solver
+    I.overrides[f"{PMI}._solve_hk_cy"] = fake_solver
+    p = Vec([S(f"p{i}") for i in range(3)])
+    nload = Vec([S(f"n{i}") for i in range(3)])
+    T = S("T")
+    a, m = props("a"), {k: v for k, v in props("m").items() if k not in ("liquid_density", "adsorbate_molar_mass")}
+    outs = I.explore(lambda I: I.call_func(fi, [p, nload, T, "sphere", dict(a), dict(m)], {}, None))
+    if not outs or outs[0].kind != "ok" or "fun" not in captured:
+        raise AnalysisError(f"psd_horvath_kawazoe_ry(sphere) cannot be interpreted: {outs[:1]}")
+    phi_f = captured["fun"]
+    l = S("l")
+    layers = {}
+    orig_int = I.ext.get("builtins.int")
+
+    def int_fork(I, a_, k, n):
+        v = a_[0]
+        if _is_symbolic(v):
+            m_ = I.choose(3, "layers-1")         # int(...) + 1 layers: 1, 2 or 3
+            layers["M"] = m_ + 1
+            return sp.Integer(m_)
+        return orig_int(I, a_, k, n)
+    I.ext["builtins.int"] = int_fork
+    d_g, d_h = a["molecular_diameter"], m["molecular_diameter"]
+    d0 = (d_g + d_h) / 2
+    nm = sp.Rational(1, 10**9)
+    pa, pm_ = a["polarizability"] * sp.Rational(1, 10**27), m["polarizability"] * sp.Rational(1, 10**27)
+    ca, cm = a["magnetic_susceptibility"] * sp.Rational(1, 10**27), m["magnetic_susceptibility"] * sp.Rational(1, 10**27)
+    A_gg = sp.Rational(3, 2) * S("m_e") * S("c_l")**2 * pa * ca
+    A_gh = 6 * S("m_e") * S("c_l")**2 * pa * pm_ / (pa / ca + pm_ / cm)
+
+    def F(a_):
+        b_ = 1 - a_
+        return a_**12 / (10 * b_) * ((1 - b_)**-10 - (1 + b_)**-10) - a_**6 / (4 * b_) * ((1 - b_)**-4 - (1 + b_)**-4)
+    npaths = 0
+    for oc in I.explore(lambda I: (layers.clear(), I.call_value(phi_f, [l], {}, None), layers.get("M"))[1:]):
+        if oc.kind != "ok":
+            raise AnalysisError(f"RY sphere potential closure cannot be evaluated: {oc}")
+        phi, M = oc.value
+        npaths += 1
+        n0 = 4 * sp.pi * (l * nm)**2 * m["surface_density"]
+        ni = lambda i: 4 * sp.pi * ((l - d0 - (i - 1) * d_g) * nm)**2 * a["surface_density"]
+        eps = [2 * n0 * A_gh / (4 * (d0 * nm)**6) * F(d0 / l)]
+        for i in range(2, M + 1):
+            eps.append(2 * ni(i - 1) * A_gg / (4 * (d_g * nm)**6) * F(d_g / (l - d0 - (i - 2) * d_g)))
+        want = (S("N_A") / (S("R") * T)) * sum(ni(i) * eps[i - 1] for i in range(1, M + 1)) / sum(ni(i) for i in range(1, M + 1))
+        verdict, wit = decide_zero(phi - want, symbols_domain={"l": (sp.Rational(5, 2), 3), "d_a": (sp.Rational(3, 10), sp.Rational(35, 100)),
+                                                               "d_m": (sp.Rational(3, 10), sp.Rational(35, 100))})
+        ctx.ob(verdict == "zero", Finding("C17.H-sphere", fi.where, f"ry-sphere|layers={M}|potential!=documented-equation",
+                                          f"Rege-Yang sphere potential with {M} layer(s) differs from the documented equations (eps_i uses the population "
+                                          f"of layer i-1, a_i = d_g/(L - d_0 - (i-2) d_g), weights n_1..n_M); witness {wit}"),
+               nontrivial_key=("ry-sphere", M), sample={"rule": "H-sphere", "layers": M})
+    ctx.floor("RY sphere layer cases", npaths, 3)
+
+
+def _is_symbolic(v):
+    return isinstance(v, sp.Basic) and not v.is_number
+
+
 def r_solver(ctx: Ctx, model):
     ctx.rule("H-solve: per pressure point one bounded minimisation of (exp(phi(l) [- sf]) - p_i)^2 on (bound, 50); one width per point")
     for name, cy in (("_solve_hk", False), ("_solve_hk_cy", True)):
@@ -308,6 +383,7 @@ def run(ctx: Ctx):
     model = load(ctx.root)
     ctx.assume("scipy.optimize.minimize_scalar(method='bounded') returns a minimiser of its objective inside the bounds")
     r_slit_and_report(ctx, model)
+    r_ry_sphere(ctx, model)
     r_solver(ctx, model)
     r_dispatch(ctx, model)
     r_params(ctx, model)
